@@ -26,6 +26,10 @@ def parseNatList (s : String) : List Nat :=
   let inner := (s.drop 1).dropEnd 1
   if inner.isEmpty then [] else (inner.toString.splitOn ",").map natOf
 
+def parseIntList (s : String) : List Int :=
+  let inner := (s.drop 1).dropEnd 1
+  if inner.isEmpty then [] else (inner.toString.splitOn ",").map intOf
+
 def parseItems (s : String) : List StreamItem :=
   let inner := (s.drop 1).dropEnd 1
   if inner.isEmpty then [] else
@@ -37,7 +41,7 @@ def parseItems (s : String) : List StreamItem :=
 def parseCall (api : String) (a : List String) : Call :=
   match api, a with
   | "add", [q, k, p] => .add (natOf q) (natOf k) (intOf p)
-  | "addall", q :: b :: ks :: _ => .addAll (natOf q) (natOf b) (parseNatList ks)
+  | "addall", q :: b :: ks :: rest => .addAll (natOf q) (natOf b) (parseNatList ks) (parseIntList (rest.headD "[]"))
   | "jclose", [k] => .jclose (natOf k)
   | "jwait", [k] => .jwait (natOf k)
   | "jstatus", [k] => .jstatus (natOf k)
